@@ -56,6 +56,16 @@ def _observe(case):
         add("line_wrap_to_width", r.split("\n") if r else [], True)
     except Exception as e:
         obs.append({"fn": "line_wrap_to_width", "exc": repr(e)})
+    if width > 0 and all(w["k"] == "p" for w in words):
+        # display width: a len_fn that counts every character of a word twice must wrap like the same words written twice as long
+        try:
+            wide = " ".join(t * 2 for t in toks)
+            r1 = wrap_paragraph_lines(wide, width, initial_column=ic, subsequent_offset=so, is_markdown=md)
+            r2 = wrap_paragraph_lines(text, width, initial_column=ic, subsequent_offset=so, is_markdown=md, len_fn=lambda s_: 2 * len(s_) - s_.count(" "))
+            if [len(l.split()) for l in r1] != [len(l.split()) for l in r2]:
+                obs.append({"fn": "wrap_paragraph_lines(len_fn)", "exc": f"LenFnRespected: words counted twice as wide by len_fn wrap differently from words written twice as long: {r2!r} vs {r1!r}"})
+        except Exception as e:
+            obs.append({"fn": "wrap_paragraph_lines(len_fn)", "exc": repr(e)})
     if ic > 0 and cid % 3 == 0:
         # continuation of an existing line (initial_column > 0): the first line carries no indent text, whatever the number of lines;
         # its length counts from initial_column + len(initial_indent), as wrap_paragraph passes it on
